@@ -491,10 +491,10 @@ theorem part_name_distinct_same_dir (d : Name) (pf : Option Name) (hd : d.plain 
         · exact ⟨m, by simp [partName, h1, h2]⟩
 
 /-- non-vacuity: the default name, an explicit name, the empty name, the refused name -/
-example : partName Gen.partSuffix "dest.txt".toList none = some "dest.txt.part".toList ∧
-    partName Gen.partSuffix "dest.txt".toList (some "x.tmp".toList) = some "x.tmp".toList ∧
-    partName Gen.partSuffix "dest.txt".toList (some []) = some "dest.txt.part".toList ∧
-    partName Gen.partSuffix "dest.txt".toList (some "dest.txt".toList) = none ∧
+example : partName ".part".toList "dest.txt".toList none = some "dest.txt.part".toList ∧
+    partName ".part".toList "dest.txt".toList (some "x.tmp".toList) = some "x.tmp".toList ∧
+    partName ".part".toList "dest.txt".toList (some []) = some "dest.txt.part".toList ∧
+    partName ".part".toList "dest.txt".toList (some "dest.txt".toList) = none ∧
     Name.plain "dest.txt".toList = true := by decide
 
 /-- why the refusal is needed: were the part file the destination itself, the "exclusive creation of the
